@@ -10,14 +10,14 @@ CLAIMED = {
  "C01": "bounded symbolic execution of the real reader+parser+printer: every catalogue program with one symbolic lexeme (all names/digits/labels/literal bodies of the stated length) is parsed, printed, re-parsed, re-printed on every feasible path; fixpoint assertions decided by z3",
  "C02": "token sequence of the printed text vs the source's, computed by an independent lexer that runs symbolically on both; tokenisation kernels (splitquote, splitparen, string_replace_map and inverse) exhausted over all ASCII strings up to the stated length",
  "C03": "all expression trees up to the stated depth over all operator spellings, rendered with minimal parentheses, symbolic operands and operator case; fparser's grouping compared with a reference derived from the standard's grammar",
- "C04": "a statement of every catalogue program laid out in other standard-conforming free-form ways (continued at token boundaries / inside tokens / inside character literals, leading '&' or not, trailing comment, blank or comment line between parts, ';' join, indentation, symbolic letter case); tree compared with the canonical layout's tree",
+ "C04": "a statement of every catalogue program laid out in other standard-conforming free-form ways (continued at token boundaries / inside tokens / inside character literals, leading '&' or not, trailing comment, blank or comment line between parts, ';' join, indentation, symbolic letter case); tree compared with the canonical layout's tree; reader kernel: every text of <= 6-7 characters over quotes, '!', ';' and a letter gives the same statements in the ';' layout and on separate lines",
  "C05": "catalogue programs rendered in fixed form with one statement wrapped at a chosen position, symbolic column-6 continuation mark, symbolic comment introducer, left/right justified labels; detector must answer fixed and the tree must equal the free-form tree; symbolic label fields for the detector",
  "C06": "arbitrary short texts (every character symbolic) and every catalogue program with one character position replaced by / preceded by a symbolic character or deleted/duplicated; outcome must be a tree or FortranSyntaxError; per-path wall-clock limit detects non-termination; codec error handler checked for progress",
  "C07": "every statement of every catalogue program replaced by symbolic garbage on one or two physical lines; the error message's line number and quoted text compared (z3 equality on the symbolic message) with the known last line of the statement",
  "C08": "structural edits (delete opener / END, surplus END, END name := symbolic different name, delete/insert one parenthesis outside character context) of every construct in several contexts; each edited program must raise",
  "C09": "every history of length <= 2 (3 thorough) over {create(f2003), create(f2008), parse(valid_i), parse(invalid_j)} followed by create(s); parse(x) compared with a hard-reset run (tree, text, symbol tables), unit names symbolic so that name coincidences across parses are decided by the solver; scope/table checks after every failing parse; memoised tokenisation vs the un-memoised function on symbolic lines",
  "C10": "same exploration as C01; on every path (every back-tracking pattern the symbolic lexeme can provoke) the tree and the re-parsed tree satisfy the parent/children/root/walk invariants",
- "C11": "comments inserted at every line boundary and on every line of catalogue programs (1-2 per program, also inside continued statements), first comment text symbolic; comment nodes in order with unchanged text, once in the regenerated text, ignored comments change nothing, Directive nodes exactly on directive-form full-line comments",
+ "C11": "comments inserted at every line boundary and on every line of catalogue programs (1-2 per program, also inside continued statements), first comment text symbolic; comment nodes in order with unchanged text, once in the regenerated text, ignored comments change nothing, Directive nodes exactly on directive-form full-line comments; reader kernel: for every text of <= 7-8 characters over both quote kinds, '!', a letter and a blank the trailing comment starts at the first '!' outside a character context",
  "C12": "reader-level: every catalogue statement continued at every split point with comments/blank lines/';'; expected items (text modulo blanks outside literals, label, construct name, span, comments in order) known by construction from an independent layout oracle; symbolic get/put/look-ahead schedules over streams",
  "C13": "runs of statements moved into (nested) include files in a virtual file system (temporary directory natively), include line spelling and file name symbolic, file in first/second/both include directories with decoys; tree equality with the original text; absent files keep an Include_Stmt",
  "C14": "preprocessor directives of all kinds (incl. backslash continuations over 2-3 lines) inserted at every statement boundary, payload identifier symbolic; tree without directive nodes equals the original tree, directive nodes in order with equal content and present in the regenerated text",
@@ -32,7 +32,7 @@ NA = {}
 def chk(pid):
     return {"property_id": pid, "quick_cmd": "bin/check %s --tier quick" % pid, "thorough_cmd": "bin/check %s --tier thorough" % pid,
             "evidence_file": "evidence/%s.json" % pid, "replay_cmd_template": "bin/check %s --replay {path}" % pid, "engine": "S",
-            "level_claimed": {"category": "model_checking", "text": CLAIMED[pid], "design_ref": "DESIGN.md section 8 " + pid},
+            "level_claimed": {"category": "model_checking", "text": CLAIMED[pid], "design_ref": "DESIGN.md section 6 (row %s), bounds in evidence/%s.json" % (pid, pid)},
             "level_note": TB, "technique": TECH}
 m = {"version": 1, "setup_cmd": "bin/setup",
      "hooks": {"guard": "FPARSER_VERIF", "enable": "no source hooks: fparser is loaded from /repo/src (or $FPARSER_SRC) through an AST-rewriting import hook (sse/hook.py) at run time",
